@@ -6,20 +6,21 @@
 (* abstracted away (the root at a checkpoint is the chain's prefix by construction here); the      *)
 (* question TLC answers is which heights are checkpointed, in which pools, and what a rewind may   *)
 (* settle on:                                                                                     *)
-(*   AlignedAbove        above the newest of the pools' oldest checkpoints all pools agree         *)
 (*   RetainedBoundaries  every retention-grid height inside a scanned batch is checkpointed in     *)
 (*                       every pool and survives any amount of later scanning, until a rewind      *)
 (*                       below it                                                                  *)
 (*   TruncateLaw         a rewind settles on a scanned height <= the request and leaves no         *)
 (*                       checkpoint above it                                                       *)
 (*   Bounded             no checkpoint above the highest scanned block                             *)
-EXTENDS Integers, FiniteSets, FiniteSetsExt, TLC
+EXTENDS Integers, FiniteSets, FiniteSetsExt, TLC, TreeOps
 
 CONSTANTS MaxH,        \* chain heights 1..MaxH (0 = the block before the birthday)
           Budget,      \* shardtree max_checkpoints (PRUNING_DEPTH in the wallet)
           Interval,    \* anchor-retention interval (0: retention disabled)
           Floor,       \* first height the retention policy applies to (NU6.3 activation)
-          MaxOps
+          MaxOps,
+          FixEnsure    \* FALSE: update_tree as it is on the pinned tree (an ensured checkpoint at or below the pool's
+                       \* oldest checkpoint is skipped); TRUE: the repaired design (ensured checkpoints are always added)
 
 Pools == 1..3
 VARIABLES has,      \* [Pools -> SUBSET 1..MaxH]: blocks holding commitments of the pool (the chain, fixed at Init)
@@ -34,11 +35,6 @@ vars == << has, ck, ret, blocks, covered, lastTrunc, ops >>
 Retains(h) == Interval > 0 /\ h >= Floor /\ h % Interval = 0
 Grid(lo, hi) == { h \in lo..hi : Retains(h) }
 
-\* shardtree: drop the oldest non-retained checkpoints while over budget
-RECURSIVE Prune(_, _)
-Prune(c, r) == IF Cardinality(c) <= Budget \/ c \subseteq r THEN c
-               ELSE Prune(c \ { Min(c \ r) }, r)
-
 Init == /\ has \in [Pools -> SUBSET (1..MaxH)]
         /\ ck = [p \in Pools |-> {}] /\ ret = [p \in Pools |-> {}]
         /\ blocks = {} /\ covered = {} /\ lastTrunc = << >> /\ ops = 0
@@ -48,14 +44,9 @@ Scan(from, to) ==
     LET batchC(p) == { h \in from..to : h \in has[p] }
         grid == Grid(from, to)
         all == UNION { batchC(p) : p \in Pools } \cup grid
-        newRet(p) == ret[p] \cup { h \in ({from - 1} \cup all) : Retains(h) }
-        \* update_tree: insert_frontier (checkpoint at from-1), insert_tree of the pool's own
-        \* subtrees (both prune), then the missing checkpoints above the minimum one (no pruning)
-        step1(p) == Prune(ck[p] \cup {from - 1}, newRet(p))
-        step2(p) == IF batchC(p) = {} THEN step1(p) ELSE Prune(step1(p) \cup batchC(p), newRet(p))
-        step3(p) == step2(p) \cup { h \in all \ batchC(p) : h > Min(step2(p)) }
-    IN  /\ ck' = [p \in Pools |-> step3(p)]
-        /\ ret' = [p \in Pools |-> newRet(p)]
+        keep == { h \in ({from - 1} \cup all) : Retains(h) }
+    IN  /\ ck' = [p \in Pools |-> BatchCk(ck[p], ret[p], from, batchC(p), all, keep, Budget, FixEnsure)]
+        /\ ret' = [p \in Pools |-> BatchRet(ret[p], keep)]
         /\ blocks' = blocks \cup (from..to)
         /\ covered' = covered \cup grid
         /\ lastTrunc' = << >>
@@ -84,15 +75,15 @@ Next == /\ ops < MaxOps /\ ops' = ops + 1
 Spec == Init /\ [][Next]_vars
 
 --------------------------------------------------------------------------------------
-NonEmpty == { p \in Pools : ck[p] # {} }
-AlignedAbove == NonEmpty # {} =>
-                  /\ NonEmpty = Pools
-                  /\ LET lo == Max({ Min(ck[r]) : r \in Pools })
-                     IN  \A p, q \in Pools : { h \in ck[p] : h >= lo } = { h \in ck[q] : h >= lo }
 RetainedBoundaries == \A h \in covered, p \in Pools : h \in ck[p] /\ h \in ret[p]
 TruncateLaw == lastTrunc # << >> =>
                   /\ lastTrunc[2] <= lastTrunc[1] /\ lastTrunc[2] \in blocks
                   /\ \A p \in Pools : \A c \in ck[p] : c <= lastTrunc[2]
 Bounded == \A p \in Pools : \A c \in ck[p] : blocks # {} /\ c <= Max(blocks)
-Inv == AlignedAbove /\ RetainedBoundaries /\ TruncateLaw /\ Bounded
+\* what holds even on the pinned tree: a boundary whose block holds a commitment of the pool keeps its
+\* checkpoint in that pool (its retention is registered before insertion)
+RetainedOwn == \A h \in covered, p \in Pools : h \in has[p] => h \in ck[p]
+Inv == RetainedBoundaries /\ RetainedOwn /\ TruncateLaw /\ Bounded     \* repaired design (FixEnsure = TRUE)
+InvPinned == RetainedOwn /\ TruncateLaw /\ Bounded                     \* pinned tree (FixEnsure = FALSE)
+\* the finding: on the pinned tree RetainedBoundaries is violated (TLC finds the counterexample)
 =====================================================================================
